@@ -112,6 +112,9 @@ func (e *Entry) Entry() *Entry {
 
 // IsDeletedOrExpired reports whether the entry is a tombstone or has passed its expiry.
 func (e *Entry) IsDeletedOrExpired() bool {
+	if e.Meta&BitDelete > 0 {
+		return true
+	}
 	if e.Value == nil {
 		return true
 	}
